@@ -73,3 +73,7 @@ Fixpoint law_all (aw : list (Z * Z)) (obs : list (Z * observed)) : bool :=
 Definition case := (list item * list (Z * Z) * list (Z * observed))%type.
 Definition judge (c : case) : N :=
   let '(p, aw, obs) := c in code_of (corr_case p aw obs) (law_all aw obs).
+
+(* programs with `.include`d files (ordinary, or overlays that set their own origin): judged by the law alone *)
+Definition law_case := (list (Z * Z) * list (Z * observed))%type.
+Definition judge_law (c : law_case) : N := code_of true (law_all (fst c) (snd c)).
